@@ -148,7 +148,8 @@ def gen_host(rng):
     r = rng.random()
     if r < 0.7:
         return ".".join(str(rng.choice([1, 10, 100, 192, 168, 255, rng.randrange(256)])) for _ in range(4))
-    labels = ["plc", "line-4", "cell12", "a", "x9", "controller"]
+    # host names are handed to the resolver as given: letter case included ("yields the stated host")
+    labels = ["plc", "line-4", "cell12", "a", "x9", "controller", "PLC-Line3", "Plant", "LOCAL", "Cell12B", "bp", "ENET", "Backplane"]
     return ".".join(rng.choice(labels) for _ in range(rng.randint(1, 3)))
 
 
